@@ -391,6 +391,139 @@ def run_boundary(cfgname):
         return res
 
 
+CYCLES_EXPECT = {
+    False: ["Y1 cycles=4294967294 last_version=4294967295 monotone=1 same_position=1 first_dead=1",
+            "Y2 panic SlotOverflow len=1 still_alive=1 wrapping=0",
+            "Y3 view=Some(4294967294) iter_count=1"],
+    True: ["Y1 cycles=4294967294 last_version=4294967295 monotone=1 same_position=1 first_dead=1",
+           "Y2 ok destroyed=1 len=0 still_alive=0 wrapping=1",
+           "Y3 next_version=1 equals_first=1 old_max_dead=1 len=1"],
+}
+CYCLES_WHAT = {
+    "Y1": "2^32-2 real create/destroy cycles on one position: every generation is the previous one + 1, no handle is reissued, the first handle stays dead",
+    "Y2": "the destroy at generation 2^32-1: without wrapping_version it panics (slot version overflow) and changes nothing; with it, it succeeds",
+    "Y3": "after the boundary: without wrapping the entity is intact and iterable; with wrapping the position restarts at generation 1 (the ancient handle may match again, nothing else)",
+}
+
+
+def run_cycles(cfgname):
+    """C08/C10/C19 (thorough): the 2^32 generation boundary with REAL cycles, no hook."""
+    jf = os.path.join(tdir(), f"cycles-{cfgname}.json")
+    with Lock("cycles-" + cfgname):
+        if os.path.exists(jf):
+            return json.load(open(jf))
+        b = build_rt(cfgname)
+        wrapping = "w" in cfgname.split("-")[1]
+        res = {"key": "cycles-" + cfgname, "config": cfgname, "profile": "cycles", "mismatches": [], "invfails": [],
+               "summary": None, "oracle_hits": [], "harness_ok": b["ok"], "lines": []}
+        if not b["ok"]:
+            res["crashed"] = "harness does not build"
+        else:
+            t0 = time.time()
+            p = subprocess.run([b["bin"], "cycles"], stdout=subprocess.PIPE, stderr=subprocess.PIPE, text=True, env=ENV, timeout=7200)
+            got = p.stdout.splitlines()
+            res["lines"] = got
+            if p.returncode != 0:
+                res["crashed"] = f"cycles run exited with {p.returncode}: {p.stderr[-300:]}"
+            for e in CYCLES_EXPECT[wrapping]:
+                tag = e.split()[0]
+                g = next((x for x in got if x.startswith(tag + " ")), None)
+                if g != e and not res.get("crashed"):
+                    prop = "C08" if tag == "Y1" else ("C19" if wrapping else "C10")
+                    res["oracle_hits"].append({"property": prop, "seq": "cycles", "line": 0, "op": "rt cycles", "class": "cycles-" + tag,
+                                               "what": f"{CYCLES_WHAT[tag]}: expected `{e}`, observed `{g}`", "no_shrink": True})
+            res["wall_s"] = round(time.time() - t0, 2)
+        json.dump(res, open(jf, "w"))
+        return res
+
+
+MIRI_PLAN = {
+    # property -> [(configuration, profile)]   (Miri ignores optimisation; dbg/rel select debug assertions)
+    "C02": [("dbg-none", "query")],
+    "C03": [("dbg-none", "forge"), ("rel-ew3", "forge"), ("rel-ew3", "mix")],
+    "C04": [("dbg-none", "mix"), ("dbg-none", "clone"), ("rel-ew3", "churn")],
+    "C06": [("dbg-none", "query")],
+    "C09": [("dbg-none", "churn")],
+    "C10": [("dbg-none", "fault"), ("dbg-none", "overflow"), ("rel-ew3", "fault")],
+    "C13": [("dbg-none", "clone")],
+    "C19": [("dbg-w", "overflow"), ("rel-ew3", "mix")],
+}
+
+
+def run_miri(cfgname, profile, seed, nseq=3, maxops=70):
+    """Supporting evidence for the part that is modelled, not verified (raw memory): the harness
+    itself, i.e. the real gecs code on generated histories, under Miri.  An error reported by Miri
+    is undefined behaviour (or, without injected faults, a leak) of the implementation on a
+    concrete history: the last, unfinished line of the trace is the op that triggered it."""
+    key = f"miri-{cfgname}-{profile}-{seed}-{nseq}-{maxops}"
+    jf = os.path.join(tdir(), key + ".json")
+    with Lock(key):
+        if os.path.exists(jf):
+            return json.load(open(jf))
+        prof, feats = CONFIGS[cfgname]
+        hdir = os.path.join(VERIF, "harness", "rt")
+        target = os.path.join(CACHE, "target-miri")
+        cmd = ["cargo", "+nightly", "miri", "run", "--offline"]
+        if prof == "release":
+            cmd.append("--release")
+        if feats:
+            cmd += ["--features", ",".join(feats)]
+        cmd += ["--", "gen", str(seed), str(nseq), str(maxops), profile]
+        flags = "-Zmiri-disable-isolation" + (" -Zmiri-ignore-leaks" if profile == "fault" else "")
+        env = dict(ENV, CARGO_TARGET_DIR=target, RUSTFLAGS="--cfg gecs_verif -Awarnings", MIRIFLAGS=flags)
+        tf = os.path.join(tdir(), key + ".trace")
+        t0 = time.time()
+        res = {"key": key, "config": cfgname, "profile": "miri:" + profile, "mismatches": [], "invfails": [], "summary": None,
+               "oracle_hits": [], "trace": tf, "miri": True}
+        try:
+            with Lock("miri-build-" + cfgname):
+                pass
+            with open(tf, "w") as fh:
+                p = subprocess.run(cmd, cwd=hdir, env=env, stdout=fh, stderr=subprocess.PIPE, text=True, timeout=5400)
+            err = p.stderr
+            res["rc"] = p.returncode
+            errs = [l for l in err.splitlines() if l.startswith("error")]
+            res["ops"] = sum(1 for l in open(tf, errors="replace") if " => " in l)
+            if p.returncode != 0:
+                ub = [l for l in errs if "Undefined Behavior" in l or "memory leaked" in l or "unsupported" not in l]
+                if not errs or "could not compile" in err or "error: no such command" in err:
+                    res["unavailable"] = err[-600:]
+                else:
+                    seqs = oracles.parse_trace(tf)
+                    last = seqs[-1] if seqs else None
+                    res["oracle_hits"].append({"property": "*", "seq": last.header if last else "?", "line": 0, "op": (last.lines[-1][4] if last and last.lines else "?"),
+                                               "class": "miri", "no_shrink": True, "miri_stderr": err[-3000:],
+                                               "what": "Miri reports on the real implementation: " + (ub[0] if ub else errs[0])[:300]})
+        except subprocess.TimeoutExpired:
+            res["unavailable"] = "timeout"
+        res["wall_s"] = round(time.time() - t0, 1)
+        json.dump(res, open(jf, "w"))
+        return res
+
+
+def leancheck_all():
+    """Thorough tier: Lean's independent re-checker over every compiled module of the project."""
+    jf = os.path.join(tdir(), "leanchecker.json")
+    with Lock("leanchecker"):
+        if os.path.exists(jf):
+            return json.load(open(jf))
+        lean_build()
+        mods = []
+        for f in sorted(glob.glob(os.path.join(LEAN, "Gecs", "**", "*.lean"), recursive=True)):
+            mods.append(os.path.relpath(f, LEAN)[:-5].replace(os.sep, "."))
+        from concurrent.futures import ThreadPoolExecutor
+        t0 = time.time()
+
+        def one(m):
+            rc, out = sh(["lake", "env", "leanchecker", m], cwd=LEAN, timeout=1800)
+            return m, rc, out[-400:]
+        with ThreadPoolExecutor(max_workers=8) as ex:
+            rs = list(ex.map(one, mods))
+        res = {"modules": len(mods), "failed": [{"module": m, "rc": rc, "out": o} for (m, rc, o) in rs if rc != 0], "wall_s": round(time.time() - t0, 1)}
+        json.dump(res, open(jf, "w"))
+        return res
+
+
 def seq_stats(trace_path):
     """Distribution facts for the evidence: distinct sequences, non-trivial ones, samples."""
     seqs = oracles.parse_trace(trace_path)
@@ -606,7 +739,8 @@ def check_rt(prop, tier, seed):
     streams = []
     profiles = ALL_PROFILES if t["profiles_all"] else spec["profiles"]
     if prop == "C17":
-        cfgs = [c for c in t["configs"] if "e" in c.split("-")[1]]
+        # event logs exist only with the `events` feature: quick = one debug and one release build with it
+        cfgs = [c for c in t["configs"] if "events" in CONFIGS[c][1]] if tier == "thorough" else ["dbg-e", "rel-ew3"]
     else:
         cfgs = t["configs"]
     for c in cfgs:
@@ -614,7 +748,40 @@ def check_rt(prop, tier, seed):
             streams.append(run_stream(c, pr, seed, t["nseq"], t["maxops"]))
     if prop == "C12":
         streams.append(run_boundary("rel-ew3"))
-    return decide(prop, tier, seed, lean, streams, lambda line: concerns(prop, spec, line))
+    extra = thorough_extras(prop, tier, seed, lean, streams)
+    return decide(prop, tier, seed, lean, streams, lambda line: concerns(prop, spec, line), extra_cov=extra)
+
+
+def thorough_extras(prop, tier, seed, lean, streams):
+    """leanchecker, the real 2^32-cycle run and the Miri subset (thorough tier only)."""
+    if tier != "thorough":
+        return None
+    extra = {}
+    lc = leancheck_all()
+    extra["leanchecker"] = {"modules_rechecked": lc["modules"], "failed": lc["failed"], "wall_s": lc["wall_s"]}
+    for f in lc["failed"]:
+        lean["broken"].append(f"leanchecker rejects {f['module']}")
+    if prop in ("C08", "C10"):
+        streams.append(run_cycles("rel-none"))
+    if prop == "C19":
+        for c in ("rel-none", "rel-w", "dbg-w"):
+            streams.append(run_cycles(c))
+    miri = []
+    from concurrent.futures import ThreadPoolExecutor
+    plan = MIRI_PLAN.get(prop, [])
+    if plan:
+        with ThreadPoolExecutor(max_workers=4) as ex:
+            for r in ex.map(lambda cp: run_miri(cp[0], cp[1], seed), plan):
+                for h in r["oracle_hits"]:
+                    if h["property"] == "*":
+                        h["property"] = prop
+                streams.append(r)
+                miri.append({"config": r["config"], "profile": r["profile"], "ops": r.get("ops"), "rc": r.get("rc"), "unavailable": r.get("unavailable"), "wall_s": r.get("wall_s")})
+    extra["miri_runs"] = miri
+    cyc = [s for s in streams if s.get("profile") == "cycles"]
+    if cyc:
+        extra["real_2^32_cycle_runs"] = [{"config": s["config"], "lines": s.get("lines"), "wall_s": s.get("wall_s")} for s in cyc]
+    return extra
 
 
 def decide(prop, tier, seed, lean, streams, concerns_fn, extra_cov=None, t0=None):
@@ -665,9 +832,13 @@ def decide(prop, tier, seed, lean, streams, concerns_fn, extra_cov=None, t0=None
     replay_path = None
     if violations and violations[0][2].get("no_shrink"):
         kind, s, h = violations[0]
-        replay_path = write_replay(prop, "oracle-" + h["class"], {
-            "property": prop, "kind": "boundary", "config": s["config"], "what": h["what"], "class": h["class"],
-            "how": "harness/rt `rt boundary` on the release build, compared with the closed forms of the C12 theorems", "observed": s.get("lines")})
+        data = {"property": prop, "kind": "boundary" if not s.get("miri") else "miri", "config": s["config"], "what": h["what"], "class": h["class"],
+                "how": "harness/rt `rt boundary` / `rt cycles` on the real implementation, compared with the closed forms of the theorems", "observed": s.get("lines")}
+        if s.get("miri"):
+            data["how"] = "cargo +nightly miri run on harness/rt (the real gecs code) with the generated history below; the last op is the one during which Miri stopped"
+            data["ops"] = seq_ops(s["trace"], h["seq"])
+            data["miri_stderr"] = h.get("miri_stderr", "")[-2500:]
+        replay_path = write_replay(prop, "oracle-" + h["class"], data)
         print(f"VIOLATION property={prop} replay={replay_path}")
         rc = 1
     elif violations:
